@@ -54,7 +54,7 @@ class P:
             "on the same / another context, register_function/prefix/infix/postfix, locking the evaluating context's public handle, "
             "re-registering itself) x nesting depth 1..3 (a handler whose action executes a program that invokes the next handler); at "
             "depth 1 also x ten sites of the invoking expression (alone, in a list of plain names, list, membership list, map value / key, "
-            "conditional branch, call argument, assignment, twice in one expression) - "
+            "conditional branch, call argument, assignment, twice in one expression), and with every handler's name also bound the other way round (context variables named like the registered function and operators, a global function named like the context function) - "
             "exhaustive. Oracle: the outer evaluation completes (no DEADLOCK, no PANIC) with the handler's normal result and the "
             "re-entrant effect is visible afterwards. Non-trivial = distinct scenario.")
     assumptions = ["deadlock = no result within the watchdog; the slowest completed scenario takes a few milliseconds"]
@@ -103,10 +103,14 @@ class P:
                     ops.append("CV:1:%s:n(0,1,0)" % hx("x"))
                     ops.append("H:49:a1.")
                     ops.append("REGF:%s:49" % hx("ident"))
-                    ops.append("EXEC:1:" + hx(SITES[site][0](prog)))
-                    ops.append("EXEC:1:" + hx("1 + 1"))
-                    ops.append("CD:1")
-                    items.append((" ".join(ops), (kind, aname, depth, hs[0], len(ops) - 3, site)))
+                    tail = ["EXEC:1:" + hx(SITES[site][0](prog)), "EXEC:1:" + hx("1 + 1"), "CD:1"]
+                    items.append((" ".join(ops + tail), (kind, aname, depth, hs[0], len(ops), site)))
+                    if depth == 1 and site in ("plain", "assign"):
+                        # the same scenario with every handler's NAME also bound the other way round: the evaluating context holds
+                        # VARIABLES called like the registered function and the operators, and a function called like the
+                        # context function is registered globally (which handler is invoked, and how, is unchanged)
+                        sh = ["CV:1:%s:n(0,7,0)" % hx(nm) for nm in ("gfun", "pre", "inf", "post", "setto", "newf", "ident")] + ["REGF:%s:49" % hx("cfun")]
+                        items.append((" ".join(ops + sh + tail), (kind, aname, depth, hs[0], len(ops) + len(sh), site)))
         return flow.mk_cases("reenter", items)
 
     def show(self, case):
